@@ -8,6 +8,10 @@ ORIGIN_TARGET = os.path.join(vlib.BUILD, "target-c04")
 DERIVE = "#[derive(Serialize, Deserialize, JsonSchema, Debug, Clone, PartialEq)]"
 
 
+DEFAULT_FNS = {"i64": "dflt_i64", "String": "dflt_string", "Option<String>": "dflt_opt_string",
+               "Option<Inner>": "dflt_opt_inner", "Vec<i64>": "dflt_vec", "Kind": "dflt_kind", "Inner": "dflt_inner"}
+
+
 def rust_def(d):
     """abstract definition (MC_C04) -> Rust source of `T`"""
     cont = []
@@ -22,6 +26,8 @@ def rust_def(d):
         a = []
         if "default" in f["attrs"]:
             a.append("default")
+        if "default_fn" in f["attrs"]:
+            a.append('default = "%s"' % DEFAULT_FNS[f["ty"]])
         if "skip_none" in f["attrs"]:
             a.append('skip_serializing_if = "Option::is_none"')
         if "rename" in f["attrs"]:
@@ -258,9 +264,12 @@ def run(tier, seed, replay=None):
             back[(r["case"], r["route"], r["cand"])] = r
     # 6. the exchange trace: one event per (type, route, sample)
     trace = []
+    by_gcase = {}
+    for e in events:
+        by_gcase.setdefault(e["case"], []).append(e)
     for gi, (oc_, route, sam) in enumerate(index):
         gc = gi + 1
-        evs = [e for e in events if e["case"] == gc]
+        evs = by_gcase.get(gc, [])
         ing = [e for e in evs if e["ev"] == "ingest"]
         comp = [e for e in evs if e["ev"] == "compile"]
         generated = all(e["res"] == "ok" for e in ing) and bool(comp) and comp[0]["res"] == "ok"
@@ -275,7 +284,7 @@ def run(tier, seed, replay=None):
             trace.append({"ev": "exchange", "case": oc_, "route": route, "cand": k,
                           "probed": e is not None, "accepted": bool(e and e["ok"]),
                           "back_ok": b["back_ok"], "back_equal": b["back_equal"], "sample": tag(sam[k - 1])})
-    bad, tstats = vlib.run_trace("Trace_C04.tla", "Trace_C04.cfg", trace, "C04", shards=1, timeout=3000)
+    bad, tstats = vlib.run_trace("Trace_C04.tla", "Trace_C04.cfg", trace, "C04", shards=12, timeout=3000)
 
     def replay_of(v):
         i = v["case"] - 1
